@@ -152,7 +152,7 @@ func (s *S) Derived(q *model.Query) {
 	// ForEach: full visit, then early stops
 	stops := []int{-1, 1}
 	if len(all) >= 2 {
-		stops = append(stops, 2, 1+s.c.R.Intn(len(all)), len(all))
+		stops = append(stops, 2, 1+s.r.Intn(len(all)), len(all))
 	}
 	for _, stop := range stops {
 		var seen []string
@@ -255,7 +255,7 @@ func (s *S) AuditBehaviour() {
 			// a range query through it
 			ids := mc.IDs()
 			if len(ids) > 0 {
-				pivot := model.Get(mc.Docs[ids[s.c.R.Intn(len(ids))]], f)
+				pivot := model.Get(mc.Docs[ids[s.r.Intn(len(ids))]], f)
 				ok := true
 				switch pivot.(type) {
 				case uint64, int64, float64, string, bool, nil:
@@ -283,6 +283,7 @@ func (s *S) auditFind(q *model.Query, sig string) {
 		return
 	}
 	res := model.FromDocs(docs)
+	s.tr("   ids=%v", idsOf(res))
 	p, inc := model.CheckResult(q, mc.Docs, res)
 	if inc {
 		s.c.Inconclusive("unspecified_comparison")
